@@ -27,8 +27,11 @@ func DeepClone(v Value) *Value {
 			return NewNoneOption()
 		}
 		return NewValueOption(DeepClone(*self.Inner))
+	case ValueRange:
+		// the bounds of a range can be assigned to (`r.start = 9`): a copy has bounds (and a cursor) of its own
+		return NewValueRange(*self.Start, *self.End, self.EndIsInclusive)
 	default:
-		// scalars, strings, ranges and functions have no shared mutable storage
+		// scalars, strings and functions have no shared mutable storage
 		return &v
 	}
 }
